@@ -34,6 +34,7 @@ ASSUMPTIONS = [
     "events have the shape EventManager._process_event produces for the side's id style (path-style: oid == path, renames carry prior_oid)",
     "preconditions mirror the code's own asserts and callers (a path is only assigned to a side that has an oid; split needs a local oid; a change flag is only raised on a side that has an oid)",
     "upstream SyncState.assert_index_is_correct() is NOT used as an oracle: it demands pending membership for a change flag without an id, which the statement excludes",
+    "OIDLESS_CHILD: an entry's path is not changed while another entry that lost its id (ousted) still sits below the old path (open finding KF-55: AssertionError out of _update_kids)",
     "DIR_UNDER_OWN_OLD_PATH: a folder entry's path is never set to a path below its own previous path (open finding KF-16: unbounded recursion in _update_kids)",
 ]
 IDS = ("a1", "a2", "a3", "a4")
@@ -174,7 +175,7 @@ def run(trace):
     import os
     off = set(trace["cfg"].get("hazards_off", []))
     if os.environ.get("VERIF_FHAZARDS") is not None:          # triage only; ./check unsets it
-        off = {"KF-16"} - {h for h in os.environ["VERIF_FHAZARDS"].split(",") if h}
+        off = {"KF-16", "KF-55"} - {h for h in os.environ["VERIF_FHAZARDS"].split(",") if h}
     for i, a in enumerate(trace["acts"]):
         k = a[0]
         ents = _entries(state)
@@ -184,6 +185,9 @@ def run(trace):
                 fail_in = a[8] if len(a) > 8 else None
                 ent0 = state.lookup_oid(side, oid)
                 if "KF-16" not in off and _dir_under_own_old_path(state, side, ent0, path, prior):
+                    hazard_skips += 1
+                    continue
+                if "KF-55" not in off and _oidless_child_below(state, side, ent0, prior, path):
                     hazard_skips += 1
                     continue
                 if _abandon_with_copy(state, side, oid, prior):
@@ -252,6 +256,9 @@ def run(trace):
                     if "KF-16" not in off and _dir_under_own_old_path(state, side, e, v, None):
                         hazard_skips += 1
                         continue
+                    if "KF-55" not in off and _oidless_child_below(state, side, e, None, v):
+                        hazard_skips += 1
+                        continue
                     e[side].path = v
                 elif f == "changed" and v and e[side].oid is None:
                     continue                                    # the engine only flags a change on a side it has an id for
@@ -288,6 +295,28 @@ def _abandon_with_copy(state, side, oid, prior_oid):
     if ent.is_conflicted or not (prior[side].sync_hash or not ent[side].sync_hash):
         return False
     return ent[1 - side].oid is not None and prior[1 - side].oid is None
+
+
+def _oidless_child_below(state, side, ent, prior_oid, new_path):
+    """hazard OIDLESS_CHILD (open finding KF-55): the path of an entry is about to change while some other entry sits
+    below its old path with a path but without an id on that side (it was ousted from its id): _update_kids re-paths
+    that child and trips `assert ent[side].oid` in _change_path"""
+    cands = [ent] if ent is not None else []
+    if prior_oid is not None:
+        p = state.lookup_oid(side, prior_oid)
+        if p is not None:
+            cands.append(p)
+    allents = set(state._changeset_storage)
+    for sd in (0, 1):
+        allents.update(state._oids[sd].values())
+    for e in cands:
+        old = e[side].path
+        if not old or old == new_path:
+            continue
+        for o in allents:
+            if o is not e and o[side].oid is None and o[side].path and o[side].path.startswith(old + "/"):
+                return True
+    return False
 
 
 def _dir_under_own_old_path(state, side, ent, new_path, prior_oid):
